@@ -38,8 +38,46 @@ pub fn panic_location_for(msg: &str) -> String {
 }
 
 /// Extra, property-specific evidence computed by the coordinator itself.
-pub fn extra_evidence(_prop: &str, _tier: &str) -> Option<Value> {
+pub fn extra_evidence(prop: &str, tier: &str) -> Option<Value> {
+    if prop == "C13" && tier == "thorough" {
+        return Some(loom_supplement());
+    }
     None
+}
+
+/// Supplementary exhaustive check for C13: the repository's own loom models of `rw_pass_cell`
+/// (region exclusivity of the page-cache write pass shared by the merkle workers), run with
+/// `--cfg loom` against /repo's current tree.
+fn loom_supplement() -> Value {
+    let vdir = engine::verif_dir();
+    let log = vdir.join("out").join("loom-rw_pass_cell.log");
+    let out = std::process::Command::new("cargo")
+        .current_dir("/repo")
+        .env("RUSTFLAGS", "--cfg loom")
+        .env("LOOM_MAX_PREEMPTIONS", "3")
+        .env("CARGO_NET_OFFLINE", "true")
+        .env("CARGO_TARGET_DIR", vdir.join("target").join("loom"))
+        .args(["test", "-p", "nomt", "--lib", "--release", "--offline", "rw_pass_cell"])
+        .output();
+    match out {
+        Err(e) => serde_json::json!({"loom_rw_pass_cell": {"ran": false, "error": e.to_string()}}),
+        Ok(o) => {
+            let text = format!("{}\n{}", String::from_utf8_lossy(&o.stdout), String::from_utf8_lossy(&o.stderr));
+            let _ = std::fs::write(&log, &text);
+            let passed = text
+                .lines()
+                .filter(|l| l.starts_with("test result:"))
+                .filter_map(|l| l.split(" passed").next().and_then(|x| x.rsplit(' ').next()).and_then(|n| n.parse::<u64>().ok()))
+                .sum::<u64>();
+            let built = !text.contains("could not compile");
+            let failed = text.contains("test result: FAILED") || text.lines().any(|l| l.contains("... FAILED"));
+            let mut v = serde_json::json!({"loom_rw_pass_cell": {"ran": built, "tests_passed": passed, "max_preemptions": 3, "log": log.display().to_string()}});
+            if built && failed {
+                v["__violation"] = serde_json::json!({"msg": "a loom model of rw_pass_cell (write-pass region exclusivity) fails", "replay": log.display().to_string()});
+            }
+            v
+        }
+    }
 }
 
 /// History engine + crash engine behind one property (cases carrying a "mode" go to crashx).
